@@ -328,7 +328,7 @@ def run_model_transitions(trans):
     w = CoqWriter(); rows = []
     for i, (B, c, ok, A) in enumerate(trans):
         rows.append('(%d%%N, (%s, %s, %s, %s))' % (i, w.state(B), coq_command(c), 'true' if ok else 'false', w.state(A)))
-    src = ['From Coq Require Import String List NArith Bool.', 'From NB Require Import Base.Json Sys.GitCfg.', 'Require Import GitCfgNow.',
+    src = ['From Coq Require Import String List NArith Bool.', 'From NB Require Import Base.Json.', 'From NB Require Import Sys.GitCfg.', 'Require Import GitCfgNow.',
            'Import ListNotations.', 'Local Open Scope string_scope.'] + w.lines
     chunks = [rows[i:i + 400] for i in range(0, len(rows), 400)]
     for j, ch in enumerate(chunks):
